@@ -332,7 +332,13 @@ fn judge(
     // full-container clauses (C03) only when a panic / refusal is involved on either side
     let props = {
         let is_refusal = |v: &Value| v[0] == "panic" || v["r"] == "panic" || (v[0] == "none" && op["name"] == "checked_insert");
-        let all = op_props(op, pre_full, &t["r"]);
+        let mut all = op_props(op, pre_full, &t["r"]);
+        // a container-raised refusal where the model accepts (e.g. a repeated item arriving when the
+        // container is full) contradicts "replacing ... succeeds on a full container"
+        let adding = matches!(op["name"].as_str().unwrap_or(""), "from_iter" | "from_array" | "s_from_iter" | "s_from_array" | "s_extend");
+        if adding && is_refusal(ret) && !is_refusal(&t["r"]) && !all.split(',').any(|p| p == "C03") {
+            all.push_str(",C03");
+        }
         let mut keep: Vec<&str> = all.split(',').filter(|p| *p != "C12" && (*p != "C03" || is_refusal(&t["r"]) || is_refusal(ret))).collect();
         if keep.is_empty() {
             keep = all.split(',').collect();
